@@ -400,7 +400,7 @@ def ob_skeleton():
                 lw = l4.ld(e_, a[1]).f
                 ids = set(x.t for x in lw if isinstance(x, Abs) and x.kind == "line")
                 if len(ids) != 1 or len(lw) != 3 or not all(isinstance(x, Abs) and x.kind == "line" for x in lw):
-                    raise Violation("fp_line_mul is applied to something other than the output of one line evaluation")
+                    raise Inconclusive("structure not recognised (no verdict): " + "fp_line_mul is applied to something other than the output of one line evaluation")
                 return l4.G(l4.gval(l4.ld(e_, a[0])) + z3.Int("line_%d" % ids.pop()))
             s["Fp12::fp_line_mul"] = line_mul
             ex.summaries = s
@@ -420,7 +420,7 @@ def ob_skeleton():
         for goal, what in obls[1:-1]:
             discharge(stats, hy, goal, what, None, 60)
         if not (isinstance(r, Abs) and r.kind == "fexp"):
-            raise Violation("the pairing does not end with final_exponent applied to the accumulated product")
+            raise Inconclusive("structure not recognised (no verdict): " + "the pairing does not end with final_exponent applied to the accumulated product")
         # exponents of the lines in the accumulated product
         L = [z3.Int("line_%d" % n) for n in range(len(lines))]
         es = []
